@@ -418,7 +418,8 @@ fn apply_parent_ready(
     if &new_hash == parent_hash {
         debug!("parent is ready, continuing with same parent");
     } else {
-        assert_ne!(&new_slot, parent_slot);
+        // NOTE: The ready parent may be a different block in the *same* slot as the one
+        // we optimistically built on, namely when the previous leader equivocated.
         debug!(
             "changed parent from {} in slot {} to {} in slot {}",
             parent_hash.short_hex(),
